@@ -230,15 +230,22 @@ def encode_constant(rep, dname):
     from mindsdb_sql.parser.ast import Constant
     fn = 'mindsdb_sql.parser.ast.select.constant:Constant.get_string[str]'
     fd = repo.find_function('mindsdb_sql.parser.ast.select.constant', 'Constant.get_string')
-    br = branch_function(fd, 'isinstance(self.value, str)') if fd else None
-    if br is None:
-        rep.undecided(f'C04.enc.{dname}.Constant', 'fst', 'str branch of Constant.get_string not found', function=fn)
+    if fd is None:
+        rep.undecided(f'C04.enc.{dname}.Constant', 'fst', 'Constant.get_string not found', function=fn)
         return
     try:
-        Enc = codec.function_transducer(br, ALPHABET, ['self.value'], result='return')
+        # the whole method under the assumptions "self.value is a str, self.with_quotes is true" (tests on the value's type are decided statically)
+        Enc = codec.function_transducer(fd, ALPHABET, ['self.value'], result='return', module='mindsdb_sql.parser.ast.select.constant',
+                                        static=codec.str_value_assumptions(('with_quotes',)))
     except FstError as e:
-        rep.undecided(f'C04.enc.{dname}.Constant', 'fst', f'extraction: {e}', function=fn)
-        return
+        br = branch_function(fd, 'isinstance(self.value, str)')
+        try:
+            if br is None:
+                raise FstError(f'{e}; no `if isinstance(self.value, str)` branch either')
+            Enc = codec.function_transducer(br, ALPHABET, ['self.value'], result='return', module='mindsdb_sql.parser.ast.select.constant')
+        except FstError as e2:
+            rep.undecided(f'C04.enc.{dname}.Constant', 'fst', f'extraction: {e2}', function=fn)
+            return
     bad = validate(Enc, lambda v: Constant(v).get_string(), ALPHABET[:8], 4)
     if bad:
         raise CheckerError(f'fst model of Constant.get_string disagrees with CPython on {bad}')
@@ -368,7 +375,7 @@ def _variable_encoder(fd, system):
     import copy
     fd2 = Spec().visit(copy.deepcopy(fd))
     ast.fix_missing_locations(fd2)
-    return codec.function_transducer(fd2, ALPHABET, ['self.value'], result='return')
+    return codec.function_transducer(fd2, ALPHABET, ['self.value'], result='return', module='mindsdb_sql.parser.ast.variable')
 
 
 # ------------------------------------------------------------------ identifiers
@@ -416,16 +423,32 @@ def identifiers(rep, dname):
     # encode: a single part. The quoting decision is read off the AST of parts_to_str (guard fragment of vlib/lexmodel.guard_dfa)
     Wrap = Fst.wrap(ALPHABET, BT, BT)
     fdp = repo.find_function('mindsdb_sql.parser.ast.select.identifier', 'Identifier.parts_to_str')
-    guard, why_not = quoting_guard(fdp)
-    if guard is None:
-        rep.undecided(f'C04.ident.enc.{dname}', 'fst', f'parts_to_str is outside the quoting-guard fragment ({why_not}): contract needs review', function=fn)
-        return
+    # which parts are printed bare / quoted: read off the real printer by symbolic execution (robust to helper extraction, inverted conditions, early
+    # returns); the syntactic reading of the guard is the fall-back
+    def _recv(ex_, part_):
+        node_ = pysym.SymObj({Identifier}, 'self', prov='param')
+        node_.known_not_none = True
+        node_.fields.update(parts=ex_.param_container([part_]), alias=None, parentheses=False)
+        return [node_], {}
     try:
-        quoted_lang = lexmodel.guard_dfa(guard, 'part', _resolver(fdp), ALPHABET)
-        quoted_big = lexmodel.guard_dfa(guard, 'part', _resolver(fdp), lexmodel.ALPHABET)
-    except FstError as e:
-        rep.undecided(f'C04.ident.enc.{dname}', 'fst', f'quoting guard of parts_to_str is outside the fragment ({e}): contract needs review', function=fn)
-        return
+        small = lexmodel.symbolic_quoting('mindsdb_sql.parser.ast.select.identifier', 'Identifier.parts_to_str', _recv, ALPHABET)
+        big = lexmodel.symbolic_quoting('mindsdb_sql.parser.ast.select.identifier', 'Identifier.parts_to_str', _recv, lexmodel.ALPHABET)
+        other = big['other'].intersect(Dfa.plus_any(lexmodel.ALPHABET)).witness()
+        if other is not None:
+            rep.failed(f'C04.ident.enc.{dname}.other', 'fst', f'the part {other!r} is printed neither as it is nor between back-quotes', function=fn,
+                       clause='a part is printed bare or back-quoted', replay=replay_encode(dname, lambda x: Identifier(parts=[x]), other, 'ident'))
+        quoted_lang, quoted_big = small['quoted'], big['bare'].complement()
+    except FstError as e1:
+        guard, why_not = quoting_guard(fdp)
+        if guard is None:
+            rep.undecided(f'C04.ident.enc.{dname}', 'fst', f'parts_to_str is outside both the symbolic reach ({e1}) and the quoting-guard fragment ({why_not}): contract needs review', function=fn)
+            return
+        try:
+            quoted_lang = lexmodel.guard_dfa(guard, 'part', _resolver(fdp), ALPHABET)
+            quoted_big = lexmodel.guard_dfa(guard, 'part', _resolver(fdp), lexmodel.ALPHABET)
+        except FstError as e:
+            rep.undecided(f'C04.ident.enc.{dname}', 'fst', f'quoting guard of parts_to_str is outside the fragment ({e}): contract needs review', function=fn)
+            return
     regions = {
         'needs-quotes': quoted_lang.minus(codecs.containing(BT)).intersect(Dfa.plus_any(ALPHABET)),
         'contains-backquote': quoted_lang.intersect(codecs.containing(BT)),
